@@ -195,4 +195,288 @@ Proof.
       * apply assoc2_none in A. contradiction.
 Qed.
 
+
+(* ---------------- the pad loop ---------------- *)
+Definition chan_claim (e : env) (p : pwbv) (x : pchan * list Z) : list (N * N) :=
+  match fst x with
+  | Pad pc => match pad_pos e (p_board p) (p_chip p) pc with DOk pos => [pos] | DErr => [] end
+  | _ => []
+  end.
+Definition chan_entry (e : env) (p : pwbv) (x : pchan * list Z) : list (N * N * list F) :=
+  match fst x with
+  | Pad pc =>
+    match pad_pos e (p_board p) (p_chip p) pc with
+    | DOk (c, r) =>
+      match pad_cal e c r with
+      | DOk (bl, g, dl) => match calib fcal bl g dl (snd x) with [] => [] | s => [((c, r), s)] end
+      | DErr => []
+      end
+    | DErr => []
+    end
+  | _ => []
+  end.
+Definition chan_good (e : env) (p : pwbv) (x : pchan * list Z) : Prop :=
+  match fst x with
+  | Pad pc => exists c r bl g dl, pad_pos e (p_board p) (p_chip p) pc = DOk (c, r) /\ pad_cal e c r = DOk (bl, g, dl)
+  | _ => True
+  end.
+
+Lemma claims_of_eq e cs :
+  claims_of e cs = match reasm e cs with DErr => [] | DOk p => flat_map (chan_claim e p) (p_sent p) end.
+Proof. reflexivity. Qed.
+
+Lemma NoDup_app_r {A} (l1 l2 : list A) : NoDup (l1 ++ l2) -> NoDup l2.
+Proof. induction l1; cbn; auto. intros H; inv H; auto. Qed.
+Lemma NoDup_mid_in {A} (l1 l2 : list A) a : In a l2 -> ~ NoDup (l1 ++ a :: l2).
+Proof. intros Hi ND. apply NoDup_remove_2 in ND. apply ND. apply in_or_app; auto. Qed.
+
+Lemma waveform_at_own p ch wf : NoDup (map fst (p_sent p)) -> In (ch, wf) (p_sent p) -> waveform_at p ch = Some wf.
+Proof.
+  unfold waveform_at. induction (p_sent p) as [|[ch' wf'] t IH]; cbn [In map fst find]; [tauto|].
+  intros ND [H|H].
+  - inv H. rewrite pchan_eqb_refl. reflexivity.
+  - inv ND. destruct (pchan_eqb ch' ch) eqn:E.
+    + exfalso. apply H2. assert (ch' = ch).
+      { destruct ch', ch; cbn in E; try discriminate; apply N.eqb_eq in E; subst; auto. }
+      subst. change ch with (fst (ch, wf)). apply in_map; auto.
+    + apply IH; auto.
+Qed.
+
+Lemma chan_loop_spec e m p cs0 : env_typed e -> reasm e cs0 = DOk p ->
+  forall l, incl l (p_sent p) -> forall pads seen pads' seen', NoDup seen ->
+  (chan_loop fcal e m p (pads, seen) l = Ok (pads', seen') <->
+   Forall (chan_good e p) l /\
+   seen' = rev (flat_map (chan_claim e p) l) ++ seen /\ NoDup seen' /\
+   pads' = rev (flat_map (chan_entry e p) l) ++ pads).
+Proof.
+  intros T R. induction l as [|[ch wf] t IH]; intros I pads seen pads' seen' ND.
+  - cbn. split.
+    + intros H; inv H. auto.
+    + intros (_ & -> & _ & ->). reflexivity.
+  - assert (It : incl t (p_sent p)) by (intros y Hy; apply I; right; auto).
+    assert (Hx : In (ch, wf) (p_sent p)) by (apply I; left; auto).
+    cbn [chan_loop flat_map]. unfold step_chan, chan_claim at 1 2, chan_entry at 1. cbn [fst snd].
+    destruct ch as [pc|fc|rc].
+    2,3: cbn [bind app]; rewrite (IH It pads seen pads' seen' ND);
+         split; [intros (A & B & C & D); split; [constructor; [exact Logic.I|auto] | auto]
+                | intros (A & B & C & D); inv A; auto].
+    rewrite (waveform_at_own p (Pad pc) wf (et_sent _ e T _ _ R) Hx). cbn [unwrap bind].
+    destruct (pad_pos e (p_board p) (p_chip p) pc) as [|[c r]] eqn:Ep.
+    { split; [discriminate|]. intros (A & _). inv A. unfold chan_good in H1; cbn [fst] in H1.
+      destruct H1 as (c & r & bl & g & dl & C & _). congruence. }
+    destruct (et_pad _ e T _ _ _ _ _ Ep) as [Hc Hr].
+    rewrite (proj2 (N.ltb_lt c 32) Hc), (proj2 (N.ltb_lt r 576) Hr). cbn [andb negb].
+    destruct (mem2 (c, r) seen) eqn:Em.
+    { split; [discriminate|]. intros (_ & B & C & _). exfalso. subst seen'.
+      cbn [app rev] in C. rewrite <- app_assoc in C. cbn [app] in C.
+      apply mem2_true in Em. eapply NoDup_mid_in; eauto. }
+    apply mem2_false in Em.
+    destruct (pad_cal e c r) as [|[[bl g] dl]] eqn:Ec.
+    { split; [discriminate|]. intros (A & _). inv A. unfold chan_good in H1; cbn [fst] in H1.
+      destruct H1 as (c' & r' & bl & g & dl & C1 & C2). rewrite Ep in C1; inv C1. congruence. }
+    rewrite signal_ok; [| eapply et_pcal; eauto | eapply et_reasm; eauto]. cbn [bind fst snd].
+    assert (ND1 : NoDup ((c, r) :: seen)) by (constructor; auto).
+    set (en := match calib fcal bl g dl wf with [] => [] | f :: l => [(c, r, f :: l)] end).
+    assert (Een : match calib fcal bl g dl wf with [] => pads | _ :: _ => (c, r, calib fcal bl g dl wf) :: pads end = en ++ pads).
+    { unfold en. destruct (calib fcal bl g dl wf); reflexivity. }
+    rewrite Een. rewrite (IH It (en ++ pads) ((c, r) :: seen) pads' seen' ND1).
+    assert (G : chan_good e p (Pad pc, wf)).
+    { unfold chan_good; cbn [fst]. exists c, r, bl, g, dl; auto. }
+    cbn [app rev]. rewrite <- !app_assoc. cbn [app].
+    assert (Er : rev (en ++ flat_map (chan_entry e p) t) ++ pads = rev (flat_map (chan_entry e p) t) ++ en ++ pads).
+    { rewrite rev_app_distr, <- app_assoc. f_equal. f_equal. unfold en. destruct (calib fcal bl g dl wf); reflexivity. }
+    rewrite Er.
+    split.
+    + intros (A & B & C & D). split; [constructor; auto|]. auto.
+    + intros (A & B & C & D). inv A. auto.
+Qed.
+
+Definition group_good (e : env) (cs : list chunkv) : Prop :=
+  exists p, reasm e cs = DOk p /\ Forall (chan_good e p) (p_sent p).
+Definition entries_of (e : env) (cs : list chunkv) : list (N * N * list F) :=
+  match reasm e cs with DErr => [] | DOk p => flat_map (chan_entry e p) (p_sent p) end.
+
+Lemma group_loop_spec e m : env_typed e ->
+  forall gl pads seen pads' seen', NoDup seen ->
+  (group_loop fcal e m (pads, seen) gl = Ok (pads', seen') <->
+   Forall (group_good e) gl /\
+   seen' = rev (flat_map (claims_of e) gl) ++ seen /\ NoDup seen' /\
+   pads' = rev (flat_map (entries_of e) gl) ++ pads).
+Proof.
+  intros T. induction gl as [|cs t IH]; intros pads seen pads' seen' ND.
+  - cbn. split.
+    + intros H; inv H. auto.
+    + intros (_ & -> & _ & ->). reflexivity.
+  - cbn [group_loop flat_map]. unfold step_group, entries_of at 1. rewrite claims_of_eq.
+    destruct (reasm e cs) as [|p] eqn:R.
+    { cbn [bind]. split; [discriminate|]. intros (A & _). inv A. destruct H1 as (p & C & _). congruence. }
+    pose proof (chan_loop_spec e m p cs T R (p_sent p) (incl_refl _)) as CS.
+    rewrite !rev_app_distr, <- !app_assoc.
+    split.
+    + destruct (chan_loop fcal e m p (pads, seen) (p_sent p)) as [[pads1 seen1]| |] eqn:E; cbn [bind]; try discriminate.
+      apply (CS pads seen pads1 seen1 ND) in E. destruct E as (A1 & B1 & C1 & D1).
+      intros H. apply (IH pads1 seen1 pads' seen' C1) in H. destruct H as (A2 & B2 & C2 & D2).
+      subst. split; [constructor; auto; exists p; auto|]. auto.
+    + intros (A & B & C & D). inv A. destruct H1 as (p' & R' & G). rewrite R in R'; inv R'.
+      assert (C1 : NoDup (rev (flat_map (chan_claim e p') (p_sent p')) ++ seen)).
+      { eapply NoDup_app_r; eauto. }
+      assert (E : chan_loop fcal e m p' (pads, seen) (p_sent p') =
+                  Ok (rev (flat_map (chan_entry e p') (p_sent p')) ++ pads, rev (flat_map (chan_claim e p') (p_sent p')) ++ seen)).
+      { apply (CS pads seen _ _ ND). auto. }
+      rewrite E. cbn [bind]. apply IH; auto.
+Qed.
+
+
+(* ---------------- the wire banks ---------------- *)
+Definition wire_good (e : env) (b : bank) : Prop :=
+  match b with
+  | BWire nb nc d =>
+    exists p, d = DOk p /\ a_chan p = A32 nc /\ (forall b0, a_board p = Some b0 -> b0 = nb) /\
+      (a_wf p <> [] -> exists w bl g dl, wire_pos e nb nc = DOk w /\ wire_cal e w = DOk (bl, g, dl))
+  | _ => True
+  end.
+Definition wpos (e : env) (b : bank) : list N :=
+  match b with
+  | BWire nb nc (DOk p) =>
+    match a_wf p with [] => [] | _ :: _ => match wire_pos e nb nc with DOk w => [w] | DErr => [] end end
+  | _ => []
+  end.
+Definition went (e : env) (b : bank) : list (N * list F) :=
+  match b with
+  | BWire nb nc (DOk p) =>
+    match a_wf p with
+    | [] => []
+    | _ :: _ =>
+      match wire_pos e nb nc with
+      | DOk w =>
+        match wire_cal e w with
+        | DOk (bl, g, dl) => match calib fcal bl g dl (a_wf p) with [] => [] | s => [(w, s)] end
+        | DErr => []
+        end
+      | DErr => []
+      end
+    end
+  | _ => []
+  end.
+
+Lemma went_cases e b : went e b = [] \/ exists w s, went e b = [(w, s)] /\ wpos e b = [w] /\ s <> [].
+Proof.
+  destruct b as [nb nc [|p]|nb d|d| |]; cbn [went wpos]; auto.
+  destruct (a_wf p) as [|v t] eqn:Ewf; auto.
+  destruct (wire_pos e nb nc) as [|w]; auto.
+  destruct (wire_cal e w) as [|[[bl g] dl]]; auto.
+  destruct (calib fcal bl g dl (v :: t)) as [|f l] eqn:Ec; auto.
+  right. exists w, (f :: l). repeat split; auto. discriminate.
+Qed.
+
+Lemma step_wire_spec e m nm ws nb nc d nm' ws' : env_typed e -> bank_typed (BWire nb nc d) ->
+  (step_wire fcal e m nm ws nb nc d = Ok (nm', ws') <->
+   wire_good e (BWire nb nc d) /\ ~ In (nb, nc) nm /\ nm' = (nb, nc) :: nm /\
+   (forall w, In w (wpos e (BWire nb nc d)) -> assocN w ws = None) /\
+   ws' = went e (BWire nb nc d) ++ ws).
+Proof.
+  intros T B. unfold step_wire, wire_good, wpos, went. destruct d as [|p].
+  { split; [cbv beta iota; try discriminate|]. intros ((p & C & _) & _); discriminate. }
+  cbn in B.
+  destruct (a_chan p) as [c|c] eqn:Ech.
+  2: { split; [cbv beta iota; try discriminate|]. intros ((p0 & C & C2 & _) & _). inv C. congruence. }
+  destruct (pair_eqb (nb, nc) (match a_board p with Some b => b | None => nb end, c)) eqn:Eq; cbn [negb].
+  2: { split; [cbv beta iota; try discriminate|]. intros ((p0 & C & C2 & C3 & _) & _). inv C. rewrite Ech in C2; inv C2.
+       exfalso. apply pair_eqb_neq in Eq. apply Eq. f_equal.
+       destruct (a_board p0) eqn:Eb; auto. symmetry. apply C3; auto. }
+  apply pair_eqb_eq in Eq.
+  assert (Efb : match a_board p with Some b => b | None => nb end = nb) by congruence.
+  assert (Ec : c = nc) by congruence. subst c. clear Eq. rewrite Efb.
+  assert (Hb : forall b0, a_board p = Some b0 -> b0 = nb).
+  { intros b0 Hb0. rewrite Hb0 in Efb. auto. }
+  destruct (mem2 (nb, nc) nm) eqn:Em.
+  { split; [cbv beta iota; try discriminate|]. intros (_ & C & _). apply mem2_true in Em. contradiction. }
+  apply mem2_false in Em.
+  destruct (a_wf p) as [|v t] eqn:Ewf.
+  { split.
+    - intros H; inv H. split; [exists p; repeat split; auto; intros C; congruence|].
+      repeat split; auto. intros w [].
+    - intros (_ & _ & -> & _ & ->). reflexivity. }
+  destruct (wire_pos e nb nc) as [|w] eqn:Ew.
+  { split; [cbv beta iota; try discriminate|]. intros ((p0 & C & _ & _ & C4) & _). inv C.
+    destruct C4 as (w & bl & g & dl & C5 & _); [rewrite Ewf; discriminate | congruence]. }
+  rewrite (proj2 (N.ltb_lt w 256) (et_wire _ e T _ _ _ Ew)). cbn [negb].
+  destruct (assocN w ws) eqn:Ea.
+  { split; [cbv beta iota; try discriminate|]. intros (_ & _ & _ & C & _). rewrite (C w) in Ea; [discriminate | left; auto]. }
+  destruct (wire_cal e w) as [|[[bl g] dl]] eqn:Ec.
+  { split; [cbv beta iota; try discriminate|]. intros ((p0 & C & _ & _ & C4) & _). inv C.
+    destruct C4 as (w' & bl & g & dl & C5 & C6); [rewrite Ewf; discriminate|].
+    inv C5. congruence. }
+  rewrite signal_ok; [| eapply et_wcal; eauto | auto]. cbn [bind].
+  split.
+  - intros H; inv H. split; [exists p; repeat split; auto; intros _; exists w, bl, g, dl; auto|].
+    split; auto. split; auto. split; [intros w' [<-|[]]; auto|].
+    destruct (calib fcal bl g dl (v :: t)); reflexivity.
+  - intros (_ & _ & -> & _ & ->). f_equal. f_equal. destruct (calib fcal bl g dl (v :: t)); reflexivity.
+Qed.
+
+Lemma wpos_in e nb nc d w : In w (wpos e (BWire nb nc d)) -> wire_pos e nb nc = DOk w.
+Proof.
+  cbn [wpos]. destruct d as [|p]; [intros []|]. destruct (a_wf p); [intros []|].
+  destruct (wire_pos e nb nc); [intros []|]. intros [<-|[]]; auto.
+Qed.
+
+Lemma wloop_sound e m : env_typed e -> forall banks nm ws nm' ws',
+  banks_typed banks -> NoDup nm -> NoDup (map fst ws) ->
+  wloop e m (nm, ws) banks = Ok (nm', ws') ->
+  Forall (wire_good e) banks /\ nm' = rev (wire_names banks) ++ nm /\ NoDup nm' /\
+  ws' = rev (flat_map (went e) banks) ++ ws /\ NoDup (map fst ws').
+Proof.
+  intros T. induction banks as [|b t IH]; intros nm ws nm' ws' B ND1 ND2 H.
+  - cbn in H. inv H. cbn. auto.
+  - inv B. rename H2 into Bb, H3 into Bt.
+    assert (OTHER : (forall nb nc d, b <> BWire nb nc d) -> wloop e m (nm, ws) t = Ok (nm', ws') ->
+              wire_names (b :: t) = wire_names t -> went e b = [] -> wire_good e b ->
+              Forall (wire_good e) (b :: t) /\ nm' = rev (wire_names (b :: t)) ++ nm /\ NoDup nm' /\
+              ws' = rev (flat_map (went e) (b :: t)) ++ ws /\ NoDup (map fst ws')).
+    { intros _ H0 E1 E2 G. destruct (IH nm ws nm' ws' Bt ND1 ND2 H0) as (A1 & A2 & A3 & A4 & A5).
+      rewrite E1. cbn [flat_map]. rewrite E2. cbn [app]. split; [constructor; auto|]. auto. }
+    destruct b as [nb nc d|nb d|d| |];
+      try (apply OTHER; [intros; discriminate | exact H | reflexivity | reflexivity | exact Logic.I]).
+    clear OTHER. cbn [wloop fst snd] in H.
+    destruct (step_wire fcal e m nm ws nb nc d) as [[nm1 ws1]| |] eqn:E; cbn [bind] in H; try discriminate.
+    apply (step_wire_spec e m nm ws nb nc d nm1 ws1 T Bb) in E. destruct E as (G & NI & -> & SL & ->).
+    assert (NDw : NoDup (map fst (went e (BWire nb nc d) ++ ws))).
+    { destruct (went_cases e (BWire nb nc d)) as [E0|(w & s & E0 & E1 & _)]; rewrite E0; cbn [app map fst]; auto.
+      constructor; auto. apply assocN_none. apply SL. rewrite E1. left; auto. }
+    destruct (IH _ _ nm' ws' Bt (NoDup_cons _ NI ND1) NDw H) as (A1 & A2 & A3 & A4 & A5).
+    split; [constructor; auto|].
+    unfold wire_names; cbn [flat_map app]; fold (wire_names t). cbn [rev]. rewrite <- !app_assoc. cbn [app].
+    split; auto. split; auto. split; auto.
+    rewrite A4. rewrite rev_app_distr, <- app_assoc. f_equal. f_equal.
+    destruct (went_cases e (BWire nb nc d)) as [E0|(w & s & E0 & _)]; rewrite E0; reflexivity.
+Qed.
+
+Lemma wloop_complete e m : env_typed e -> wire_pos_injective e -> forall banks nm ws,
+  banks_typed banks -> Forall (wire_good e) banks -> NoDup (rev (wire_names banks) ++ nm) ->
+  (forall nb nc w, In (nb, nc) (wire_names banks) -> wire_pos e nb nc = DOk w -> assocN w ws = None) ->
+  exists r, wloop e m (nm, ws) banks = Ok r.
+Proof.
+  intros T INJ. induction banks as [|b t IH]; intros nm ws B G ND SL.
+  - cbn. eauto.
+  - inv B. inv G. rename H1 into Bb, H2 into Bt, H3 into Gb, H4 into Gt.
+    destruct b as [nb nc d|nb d|d| |]; cbn [wloop]; try (apply IH; auto; fail).
+    unfold wire_names in ND, SL; cbn [flat_map app] in ND, SL; fold (wire_names t) in ND, SL.
+    cbn [rev] in ND. rewrite <- app_assoc in ND. cbn [app] in ND.
+    assert (NI : ~ In (nb, nc) nm).
+    { apply NoDup_app_r in ND. inv ND. auto. }
+    assert (NT : ~ In (nb, nc) (wire_names t)).
+    { apply NoDup_remove_2 in ND. intros C. apply ND. apply in_or_app. left. apply in_rev in C. auto. }
+    assert (E : step_wire fcal e m nm ws nb nc d = Ok ((nb, nc) :: nm, went e (BWire nb nc d) ++ ws)).
+    { apply step_wire_spec; auto. split; auto. split; auto. split; auto. split; auto.
+      intros w Hw. apply wpos_in in Hw. eapply SL; eauto. left; auto. }
+    cbn [fst snd]. rewrite E. cbn [bind]. apply IH; auto.
+    intros nb' nc' w' Hin Hp.
+    assert (A0 : assocN w' ws = None) by (eapply SL; eauto; right; auto).
+    destruct (went_cases e (BWire nb nc d)) as [E0|(w & s & E0 & E1 & _)]; rewrite E0; cbn [app]; auto.
+    cbn [assocN]. destruct (w' =? w) eqn:Ew; auto. apply N.eqb_eq in Ew; subst w'.
+    exfalso. assert (Hw : wire_pos e nb nc = DOk w) by (apply (wpos_in e nb nc d); rewrite E1; left; auto).
+    pose proof (INJ _ _ _ _ _ Hp Hw) as C. inv C. contradiction.
+Qed.
+
 End Proofs.
